@@ -467,9 +467,9 @@ def correspondence(ctx):
         code = make_code(name, size)
         dname, dkw = deformation_options(name)[-1]
         words = deformation_words(code, dname, dkw)
-        for p in p_grid(8 if not ctx.thorough else 16):
-            for r in simplex_grid(4 if not ctx.thorough else 8):
-                em = make_model(r, dname, dkw)
+        for r in simplex_grid(4 if not ctx.thorough else 8):
+            em = make_model(r, dname, dkw)   # one model object for all rates: the cache must key on the rate
+            for p in p_grid(8 if not ctx.thorough else 16):
                 ans = guarded(lambda: impl_dist(code, em, p), {'KeyError': 'ERR KeyError'})
                 s.add(f'n.dist {chan_tokens(p, r, code.n, words)}', ans,
                       {'code': name, 'size': size, 'deformation': dname, 'kwargs': dkw, 'p': rs(p), 'r': [rs(x) for x in r]},
@@ -643,6 +643,8 @@ def check_case(case):
 
 def _check_case(case):
     kind = case['kind']
+    if kind == 'update':
+        return _check_update(case)
     code, em, p, r, dists = case_objects(case)
     n = code.n
     pf = float(p)
@@ -659,6 +661,19 @@ def _check_case(case):
             if got != dists[i]:
                 return f'qubit {i}: distribution { {k: str(v) for k, v in got.items()} } is not the stated ' \
                        f'{ {k: str(v) for k, v in dists[i].items()} }'
+        return None
+    if kind == 'dist-sequence':
+        # one model object asked for several error rates in a row (results are cached by the code)
+        for ps in case['rates']:
+            pq = parse_rat(ps)
+            arrs = em.probability_distribution(code, float(pq))
+            words = deformation_words(code, case.get('deformation'), case.get('kwargs') or {})
+            for i in range(n):
+                want = stated_dist(pq, r, None if words is None else words[i])
+                got = {s_: fr(arrs[k][i]) for k, s_ in enumerate(LETTERS)}
+                if got != want:
+                    return f'rate {ps} asked after {case["rates"][:case["rates"].index(ps)]}: qubit {i} has ' \
+                           f'{ {k: str(v) for k, v in got.items()} }, stated { {k: str(v) for k, v in want.items()} }'
         return None
     if kind == 'sample':
         us = [float(parse_rat(u)) for u in case['us']]
@@ -744,6 +759,33 @@ def _check_case(case):
     return f'unknown kind {kind}'
 
 
+def _check_update(case):
+    """update_probabilities(correction, px, py, pz, direction) on explicit per-qubit distributions:
+    entry i must be P(other flip | decoded flip = correction[i])"""
+    code = make_code('Toric2DCode', (2, 2))
+    em = make_model((1, 0, 0))
+    ds = [[parse_rat(t) for t in q] for q in case['dists']]      # (pI, pX, pY, pZ) per qubit
+    corr = case['correction']
+    px, py, pz = ([d[k] for d in ds] for k in (1, 2, 3))
+    got = impl_update(code, em, Fraction(1, 8), case['direction'], corr, px, py, pz)
+    if len(got) != len(corr):
+        return f'result has length {len(got)}'
+    for i, d in enumerate(ds):
+        pI, pX, pY, pZ = d
+        if case['direction'] == 'z->x':
+            joint, marg = ((pY, pZ + pY) if corr[i] == 1 else (pX, pI + pX))
+        else:
+            joint, marg = ((pY, pX + pY) if corr[i] == 1 else (pZ, pI + pZ))
+        if marg == 0:
+            if corr[i] == 1 and float(got[i]) != 0.0:
+                return f'entry {i} is {got[i]!r} after conditioning on a flip of probability 0 (code keeps 0)'
+            continue
+        want = joint / marg
+        if not (math.isfinite(float(got[i])) and abs(fr(got[i]) - want) <= Fraction(1, 10 ** 12)):
+            return f'entry {i} is {float(got[i])!r}, conditional probability given flip={corr[i]} is {want}'
+    return None
+
+
 def llr_mismatch(w, P):
     """weight must be -log(P/(1-P)) (up to the 1e-20 regulariser): sign and value"""
     if P == 1:
@@ -766,6 +808,7 @@ def oracle_cases(ctx, deep):
     if deep:
         names += [(nm, sz[0][0]) for nm, sz in CODE_SIZES.items() if (nm, sz[0][0]) not in names]
     kch = 12 if deep else 4
+    P16 = p_grid(16)
     for name, size in names:
         code = make_code(name, size)
         for dname, dkw in deformation_options(name):
@@ -777,6 +820,9 @@ def oracle_cases(ctx, deep):
                 base = {'code': name, 'size': list(size), 'deformation': dname, 'kwargs': dkw, 'p': rs(p),
                         'r': [rs(x) for x in r]}
                 cases.append(dict(base, kind='dist'))
+                if len(cases) % 3 == 1:
+                    p2 = P16[int(rng.integers(len(P16)))]
+                    cases.append(dict(base, kind='dist-sequence', rates=[rs(p), rs(p2), rs(p)]))
                 for _ in range(3 if deep else 1):
                     us = []
                     for i in range(code.n):
@@ -796,13 +842,24 @@ def oracle_cases(ctx, deep):
                     if dname is not None:  # XZZX-deformed code objects are not CSS: joint decoder
                         cases.append(dict(base, kind='bposd', code_deformation='XZZX',
                                           decoding=[int(x) for x in rng.integers(0, 2, 2 * n)]))
+    for _ in range(60 if deep else 20):
+        m = int(rng.integers(1, 6))
+        ds = []
+        for _q in range(m):
+            p, r = channel_samples(ctx, rng, 3)[-1]
+            d = stated_dist(p, r, ['XYZ', 'ZYX', 'YZX', 'XZY'][int(rng.integers(4))])
+            ds.append([rs(d[t]) for t in LETTERS])
+        for direction in ('z->x', 'x->z'):
+            cases.append({'kind': 'update', 'direction': direction, 'dists': ds,
+                          'correction': [int(x) for x in rng.integers(0, 2, m)]})
     return cases
 
 
 def oracle(ctx, deep=False, broken=None):
     cases = oracle_cases(ctx, deep)
     fails = first_failures(cases, check_case,
-                           key=lambda c: {'kind': c['kind'], 'deformed': c.get('deformation') is not None})
+                           key=lambda c: {'kind': c['kind'], 'deformed': c.get('deformation') is not None,
+                                          'direction': c.get('direction')})
     return fails, {'evaluations': len(cases)}
 
 
